@@ -121,6 +121,57 @@ pub fn cases(tier: Tier) -> Vec<GCase> {
             c.bound2 = true;
             out.push(c);
         }
+        // the composer's constant identity point (coordinates ARE Composer::ZERO / ONE) as an operand
+        {
+            let idp = Pt { x: zero(), y: one() };
+            let neg1p = p1.neg();
+            type F2 = fn(&mut Composer, TorsionFreeWitnessPoint) -> TorsionFreeWitnessPoint;
+            let ops: Vec<(&str, F2, Pt)> = vec![
+                ("add_point/P+IDENTITY", |c, p| c.component_add_point(p, Composer::IDENTITY), *p1),
+                ("add_point/IDENTITY+P", |c, p| c.component_add_point(Composer::IDENTITY, p), *p1),
+                ("sub_point/P-IDENTITY", |c, p| c.component_sub_point(p, Composer::IDENTITY), *p1),
+                ("sub_point/IDENTITY-P", |c, p| c.component_sub_point(Composer::IDENTITY, p), neg1p),
+                ("neg_point/IDENTITY", |c, _p| c.component_neg_point(Composer::IDENTITY), idp),
+                ("add_point/IDENTITY+IDENTITY", |c, _p| c.component_add_point(Composer::IDENTITY, Composer::IDENTITY), idp),
+            ];
+            for (nm, f, want) in ops {
+                let g = Gadget::new(&format!("{}/{}", nm, n1), vec![p1.x, p1.y], move |c, ins| {
+                    let p = typed(c, ins[0], ins[1]);
+                    let r = f(c, p);
+                    Ok(vec![*r.x(), *r.y()])
+                });
+                let mut c = GCase::new(g, Expect::Sat(vec![want.x, want.y]), "point-ops/constant-identity");
+                c.bound2 = true;
+                out.push(c);
+            }
+            for bit in [0i64, 1] {
+                for first in [false, true] {
+                    let g = Gadget::new(&format!("select_point/{}|IDENTITY/first={}/bit{}", n1, first, bit), vec![fi(bit), p1.x, p1.y], move |c, ins| {
+                        let p = c.verif_point(ins[1], ins[2]);
+                        let id: WitnessPoint = Composer::IDENTITY.into();
+                        let r = if first { c.component_select_point(ins[0], id, p) } else { c.component_select_point(ins[0], p, id) };
+                        Ok(vec![*r.x(), *r.y()])
+                    });
+                    let chosen = if (bit == 1) == first { idp } else { *p1 };
+                    let mut c = GCase::new(g, Expect::Sat(vec![chosen.x, chosen.y]), "select_point/constant-identity");
+                    c.bound2 = true;
+                    let mut c2 = c.clone();
+                    out.push(c);
+                    // ... and with the composer's constant bit witnesses
+                    c2.g = c2.g.with_const_handles();
+                    out.push(c2);
+                }
+                let g = Gadget::new(&format!("select_identity/IDENTITY/bit{}", bit), vec![fi(bit)], |c, ins| {
+                    let r = c.component_select_identity(ins[0], Composer::IDENTITY);
+                    Ok(vec![*r.x(), *r.y()])
+                });
+                let mut c = GCase::new(g, Expect::Sat(vec![zero(), one()]), "select_identity/constant-identity");
+                c.bound2 = true;
+                out.push(c.clone());
+                c.g = c.g.with_const_handles();
+                out.push(c);
+            }
+        }
         let neg = p1.neg();
         let g = Gadget::new(&format!("neg_point/{}", n1), vec![p1.x, p1.y], |c, ins| {
             let r = c.component_neg_point(typed(c, ins[0], ins[1]));
